@@ -5,6 +5,10 @@ UNITS = {
     # BMPController), the constructors' initial contexts, command numbers, SPINN5_ETH_OFFSET -- printed
     # from the live objects and cross-checked against the `ast` of the two source files (fail closed)
     "GenSignatures": dict(props=["C18"], dumper="dump_c18.py", args=[]),
+    # statement-by-statement shape of rig/utils/contexts.py and of the controller functions the model of the
+    # stack, the wrapper, the connection choice, discover_connections and the board collections follows (ast only,
+    # fail closed)
+    "GenContextShape": dict(props=["C18"], dumper="dump_c18ctx.py", args=[]),
     # the kernel _get_connection calls, translated from the source text
     "GenCtxGeometry": dict(
         props=["C18"],
